@@ -744,6 +744,67 @@ pub fn c20(ctx: &mut Ctx) {
             }
         });
     }
+    // every list length n up to a bound, then one element added again - the one that was added p-th, for EVERY p: an
+    // index, a search window or a fast path of any size in between (100 entries, 144, 300 ...) that misplaces exactly
+    // one position shows here (see gens::dense_bound for the reasoning; the bound is smaller because the space is
+    // quadratic)
+    {
+        let nmax = t.pick(320u64, 1100);
+        ctx.bound("re-add every position", format!("NackBuilder / FirBuilder: every n in 1..={} adds (ascending; FIR also descending), then the p-th added element again for every p < n", nmax));
+        let pairs = nmax * (nmax + 1) / 2;
+        ctx.run_space("readd-every-position", pairs * 3, |idx, l| {
+            let kind = idx / pairs; // 0 FIR ascending, 1 FIR descending, 2 NACK
+            let k = idx % pairs;
+            // k -> (n, p) with p < n: n = smallest with n(n+1)/2 > k
+            let mut n = (((8.0 * k as f64 + 1.0).sqrt() - 1.0) / 2.0) as u64;
+            while n * (n + 1) / 2 > k {
+                n -= 1;
+            }
+            while (n + 1) * (n + 2) / 2 <= k {
+                n += 1;
+            }
+            let p = (k - n * (n + 1) / 2) as usize;
+            let n = n as usize + 1;
+            l.evals += 1;
+            l.states += 1;
+            if kind < 2 {
+                let mut adds: Vec<(u32, u8)> = (0..n as u32).map(|i| (0x0100_0000 + i * 0x0001_0001, (i % 250) as u8)).collect();
+                if kind == 1 {
+                    adds.reverse();
+                }
+                let again = (adds[p].0, 251);
+                adds.push(again);
+                let canonical: Vec<(u32, u8)> = Fci::fir_map(&adds).into_iter().collect();
+                let model = Pkt::Fb { kind: Kind::Payload, sender: 3, media: 4, fci: Fci::Fir(canonical), pad: 0 };
+                let hist = || format!("Fir::builder() + {} add_ssrc calls ({}), then the SSRC added {}-th again with another sequence number", n, if kind == 0 { "ascending" } else { "descending" }, p + 1);
+                l.sample(|| hist());
+                match guard::catch(|| bytes_of(&PayloadFeedback::builder_owned(build::fir_builder(&adds)).sender_ssrc(3).media_ssrc(4))) {
+                    Err(pi) => l.subject_panic("history:FirBuilder", &pi, || hist()),
+                    Ok(got) => judge(l, "FirBuilder", &hist, &model, Wrap::None, got),
+                }
+            } else {
+                let mut seq: Vec<u16> = (0..n as u32).map(|i| (1000 + i * 19) as u16).collect();
+                seq.push(seq[p]);
+                let model = Pkt::Fb { kind: Kind::Transport, sender: 3, media: 4, fci: Fci::Nack(Fci::nack_set(&seq)), pad: 0 };
+                let hist = || format!("Nack::builder() + {} add_rtp_sequence calls, then the number added {}-th again", n, p + 1);
+                l.sample(|| hist());
+                match guard::catch(|| bytes_of(&TransportFeedback::builder_owned(build::nack_builder(&seq)).sender_ssrc(3).media_ssrc(4))) {
+                    Err(pi) => l.subject_panic("history:NackBuilder", &pi, || hist()),
+                    Ok(got) => judge(l, "NackBuilder", &hist, &model, Wrap::None, got),
+                }
+            }
+        });
+    }
+    // a NACK builder that was sized and written, then extended: {b, b + d1} then b + d2 for all d1, d2 in 0..=40, in
+    // both orders of the first two, with the builder queried after every add (all wrapper flavours)
+    ctx.run_space("nack-extend-after-query", 41 * 41 * 2, |idx, l| {
+        let (d1, d2, rev) = ((idx % 41) as u16, ((idx / 41) % 41) as u16, idx / 1681 == 1);
+        let b = [1000u16, 0xFFF0][(d1 as usize + d2 as usize) % 2];
+        let seq: Vec<u16> = if rev { vec![b.wrapping_add(d1), b, b.wrapping_add(d2)] } else { vec![b, b.wrapping_add(d1), b.wrapping_add(d2)] };
+        let model = Pkt::Fb { kind: Kind::Transport, sender: 3, media: 4, fci: Fci::Nack(Fci::nack_set(&seq)), pad: 0 };
+        let hist = || format!("Nack::builder(){}", seq.iter().map(|s| format!(".add_rtp_sequence({})", s)).collect::<String>());
+        all_wraps(l, "NackBuilder", &hist, &model, &|| TransportFeedback::builder_owned(build::nack_builder_p(&seq, probing())).sender_ssrc(3).media_ssrc(4));
+    });
     // Nesting equivalence: a compound builder is itself a writer and may be a member; however a member list is
     // bracketed into nested compound builders, the bytes are those of the flat list
     {
